@@ -126,6 +126,11 @@ RECURSIVE PostChain(_)
 PostChain(e) == IF e > Len(chains) THEN <<>>
                 ELSE (IF cfgs[e].type = POST THEN chains[e] ELSE <<>>) \o PostChain(e + 1)
 
+\* SamplingResults.get_tuning_times: one entry per completed adaptation epoch, the global time at its end
+RECURSIVE TuneTimes(_)
+TuneTimes(e) == IF e > Len(chains) THEN <<>>
+                ELSE (IF IsAdapt(cfgs[e].type) THEN <<SumDur(cfgs, 1, e)>> ELSE <<>>) \o TuneTimes(e + 1)
+
 TResults ==
   /\ IsEvent("results") /\ ~Silent
   /\ Chk("results_read_when_idle", pc = "idle")
@@ -162,6 +167,7 @@ TResults ==
               /\ Len(Ev.posterior.tags) = Len(pc_)
               /\ \A i \in 1..Len(pc_) :
                    Ev.posterior.tags[i] = pc_[i][KernelOfKey(Hdr.postkey)])
+  /\ Chk("tuning_times_are_the_end_times_of_the_adaptation_epochs", Ev.tuning_times = TuneTimes(1))
   /\ Chk("stored_results_unchanged_by_reading_and_summarising", Ev.reread_ok)
   /\ Chk("keys_distinct_across_chains_and_calls",
          Cardinality(SeqToSet(Ev.allkeys)) = Len(Ev.allkeys))
